@@ -1,6 +1,6 @@
 (* C07 -- a direct statement of what TLS negotiation between two configurations must yield
    (RFC 5246 7.4.1, RFC 8446 4.1.1/4.2.1/4.2.7/4.2.3, RFC 7301 3.2), independent of any
-   implementation: highest common version; the first suite in the server's preference order that
+   implementation: the highest common version for which both enable a suite usable with the server's key; the first suite in the server's preference order that
    both sides enable, that is defined for that version and for the server's key, and for which a
    common group / signature scheme exists when the suite needs one; a common group; a common
    signature scheme; an ALPN protocol both sides list (or none).  Definitions only. *)
@@ -36,10 +36,11 @@ Fixpoint first_common (pref other : list Z) (ok : Z -> bool) : option Z :=
   | x :: t => if mem x other && ok x then Some x else first_common t other ok
   end.
 
-Definition highest_common (a b : list Z) : option Z :=
-  fold_left (fun acc v => if mem v b then match acc with
-                                          | Some m => Some (Z.max m v)
-                                          | None => Some v end else acc) a None.
+(* the greatest element of a that satisfies p *)
+Definition highest_such (p : Z -> bool) (a : list Z) : option Z :=
+  fold_left (fun acc v => if p v then match acc with
+                                      | Some m => Some (Z.max m v)
+                                      | None => Some v end else acc) a None.
 
 Definition feasible (env : Env) (c s : Cfg) (v suite : Z) : bool :=
   usable env v suite &&
@@ -48,9 +49,16 @@ Definition feasible (env : Env) (c s : Cfg) (v suite : Z) : bool :=
   (negb (needs_sig env v suite) ||
    match first_common (cf_sigs s) (cf_sigs c) (sig_fits env v) with Some _ => true | None => false end).
 
+(* a version both enable and for which both enable a suite usable with the server's key (a server
+   does not select a version it has no suite or key for -- OpenSSL falls back to TLS 1.2 with a DSA
+   key -- but it does commit to the version before looking at groups) *)
+Definition version_ok (env : Env) (c s : Cfg) (v : Z) : bool :=
+  mem v (cf_versions s) &&
+  match first_common (cf_suites s) (cf_suites c) (usable env v) with Some _ => true | None => false end.
+
 (* None = the handshake must fail *)
 Definition spec_negotiate (env : Env) (c s : Cfg) : option Choice :=
-  match highest_common (cf_versions c) (cf_versions s) with
+  match highest_such (version_ok env c s) (cf_versions c) with
   | None => None
   | Some v =>
       match first_common (cf_suites s) (cf_suites c) (feasible env c s v) with
@@ -74,9 +82,12 @@ Definition spec_negotiate (env : Env) (c s : Cfg) : option Choice :=
 
 (* "the configurations share something usable" *)
 Definition common (env : Env) (c s : Cfg) : Prop :=
-  exists v, (In v (cf_versions c) /\ In v (cf_versions s) /\
-             forall w, In w (cf_versions c) -> In w (cf_versions s) -> w <= v) /\
-  (exists suite, In suite (cf_suites c) /\ In suite (cf_suites s) /\ usable env v suite = true /\
+  (exists v suite,
+     (* v is the highest version both enable with a suite usable for the server's key ... *)
+     In v (cf_versions c) /\ version_ok env c s v = true /\
+     (forall w, In w (cf_versions c) -> version_ok env c s w = true -> w <= v) /\
+     (* ... and at v a suite, and where needed a group and a signature scheme, are common *)
+     In suite (cf_suites c) /\ In suite (cf_suites s) /\ usable env v suite = true /\
      (needs_group env suite = true -> exists g, In g (cf_groups c) /\ In g (cf_groups s)) /\
      (needs_sig env v suite = true ->
         exists sg, In sg (cf_sigs c) /\ In sg (cf_sigs s) /\ sig_fits env v sg = true)) /\
